@@ -148,6 +148,41 @@ fn real_bgp(proc_: &mut BgpUpdateProcessor, as4: bool, pdu: &[u8]) -> Result<Vec
     update_evs(&u)
 }
 
+// ---- MRT (RFC 6396) BGP4MP_MESSAGE (subtype 1, 2-octet AS) / BGP4MP_MESSAGE_AS4 (subtype 4)
+fn mrt_record(as4: bool, pdu: &[u8]) -> Vec<u8> {
+    let mut b = vec![];
+    if as4 { b.extend(64500u32.to_be_bytes()); b.extend(64512u32.to_be_bytes()); } else { b.extend(64500u16.to_be_bytes()); b.extend(64512u16.to_be_bytes()); }
+    b.extend(0u16.to_be_bytes()); b.extend(1u16.to_be_bytes());
+    b.extend([192, 0, 2, 7]); b.extend([192, 0, 2, 1]);
+    b.extend(pdu);
+    let mut v = 1_700_000_000u32.to_be_bytes().to_vec();
+    v.extend(16u16.to_be_bytes()); v.extend((if as4 { 4u16 } else { 1u16 }).to_be_bytes());
+    v.extend((b.len() as u32).to_be_bytes()); v.extend(b);
+    v
+}
+
+/// MRT path: the records are written to one update file which the real
+/// `MrtInRunner::process_file` reads; returns the `Update`s that left the gate and
+/// whether `process_file` returned an error.
+fn real_mrt_file(rt: &tokio::runtime::Runtime, dir: &std::path::Path, recs: &[(bool, Vec<u8>)]) -> (Vec<Update>, bool) {
+    let path = dir.join("c04.mrt");
+    let mut raw = vec![];
+    for (as4, pdu) in recs { raw.extend(mrt_record(*as4, pdu)); }
+    std::fs::write(&path, raw).unwrap();
+    rt.block_on(async {
+        let (gate, mut agent) = rotonda::comms::Gate::new(1_000_000);
+        let mut link = agent.create_link();
+        let register = rotonda::verif::c17::new_register();
+        let parent = rotonda::verif::c17::register(&register);
+        gate.process_until(link.connect(false)).await.unwrap().unwrap();
+        let res = rotonda::units::verif_mrt_file_in_c16::process_file(gate.clone(), register.clone(), parent, path.clone()).await;
+        let mut out = vec![];
+        while let Ok(Ok(u)) = tokio::time::timeout(std::time::Duration::from_millis(20), link.query()).await { out.push(u); }
+        drop(agent);
+        (out, res.is_err())
+    })
+}
+
 // ---- BMP framing (RFC 7854), written here; the monitored peer is 192.0.2.7 AS 64500
 fn bmp_msg(typ: u8, body: &[u8]) -> bytes::Bytes {
     let mut v = vec![3u8];
@@ -533,13 +568,23 @@ fn describe_diff(exp: &[Ev], got: &[Ev]) -> String {
 
 /// How the PDU reaches rotonda.
 #[derive(Clone, Copy, PartialEq)]
-enum Path { Direct, Bgp, BmpDumping, BmpUpdating }
+enum Path { Direct, Bgp, BmpDumping, BmpUpdating, Mrt }
 impl Path {
-    fn tag(self) -> &'static str { match self { Path::Direct => "wf", Path::Bgp => "bgp", Path::BmpDumping => "bmpd", Path::BmpUpdating => "bmpu" } }
-    fn parse(s: &str) -> Path { match s { "bgp" => Path::Bgp, "bmpd" => Path::BmpDumping, "bmpu" => Path::BmpUpdating, _ => Path::Direct } }
+    fn tag(self) -> &'static str { match self { Path::Direct => "wf", Path::Bgp => "bgp", Path::BmpDumping => "bmpd", Path::BmpUpdating => "bmpu", Path::Mrt => "mrt" } }
+    fn parse(s: &str) -> Path { match s { "bgp" => Path::Bgp, "bmpd" => Path::BmpDumping, "bmpu" => Path::BmpUpdating, "mrt" => Path::Mrt, _ => Path::Direct } }
 }
 
-struct Ctx { bgp: BgpUpdateProcessor }
+struct Ctx { bgp: BgpUpdateProcessor, rt: tokio::runtime::Runtime, dir: std::path::PathBuf }
+
+/// One PDU through the MRT path on its own (one-record file).
+fn real_mrt(cx: &Ctx, as4: bool, pdu: &[u8]) -> Result<Vec<Ev>, &'static str> {
+    let (ups, failed) = real_mrt_file(&cx.rt, &cx.dir, &[(as4, pdu.to_vec())]);
+    match (ups.as_slice(), failed) {
+        ([u], false) => update_evs(u),
+        ([], _) => Err("mrt-record-yielded-nothing"),
+        _ => Err("mrt-unexpected-updates"),
+    }
+}
 
 /// routecore's `is_eor()` would say yes (read from the reference decoding, not from routecore).
 fn looks_like_eor_to_routecore(pdu: &[u8]) -> bool {
@@ -554,7 +599,13 @@ fn wf_case(rec: &mut Recorder, cx: &mut Ctx, path: Path, as4: bool, pdu: &[u8], 
         Path::Bgp => real_bgp(&mut cx.bgp, as4, pdu),
         Path::BmpDumping => real_bmp(as4, pdu.len() % 2 == 0, false, pdu),
         Path::BmpUpdating => real_bmp(as4, pdu.len() % 2 == 0, true, pdu),
+        Path::Mrt => real_mrt(cx, as4, pdu),
     })).unwrap_or(Err("panic"));
+    finish_wf_case(rec, path, as4, pdu, truth, got)
+}
+
+/// Judge and record one well-formed case whose real-code result is `got`.
+fn finish_wf_case(rec: &mut Recorder, path: Path, as4: bool, pdu: &[u8], truth: Option<&[Ev]>, got: Result<Vec<Ev>, &'static str>) -> Result<Vec<Ev>, &'static str> {
     let imp = match &got { Ok(es) => show_events(es), Err("panic") => "panic".to_string(), Err(s) if s.starts_with("setup") => format!("engine-error {s}"), Err(_) => "err".to_string() };
     let exp = reference(as4, pdu);
     let oracle = match (&exp, truth) {
@@ -566,6 +617,8 @@ fn wf_case(rec: &mut Recorder, cx: &mut Ctx, path: Path, as4: bool, pdu: &[u8], 
             Ok(es) if sorted_events(es) == sorted_events(r) => "ok".to_string(),
             Ok(es) if es.is_empty() && path == Path::BmpDumping && looks_like_eor_to_routecore(pdu) =>
                 format!("fail bmp-dumping:update-taken-for-end-of-rib {} route event(s) of a well-formed UPDATE lost: is_eor() is true for it and no End-of-RIB was pending", r.len()),
+            Ok(es) if path == Path::Mrt && !as4 && sorted_events(&es.iter().cloned().map(|mut e| { e.as4 = false; e }).collect::<Vec<_>>()) == sorted_events(r) =>
+                "fail mrt:two-octet-as-record-tagged-four-octet the attribute maps of a BGP4MP_MESSAGE (2-octet AS) record are tagged 4-octet-AS, so AS_PATH / AGGREGATOR read back wrongly".to_string(),
             Ok(es) => format!("fail events-mismatch {}", describe_diff(&sorted_events(r), &sorted_events(es))),
             Err(stage) if has_dirty_pad(pdu) && *stage != "panic" && !stage.starts_with("stored") && !stage.starts_with("setup") =>
                 format!("fail padbits:nonzero-trailing-bits-update-rejected {} failed; {} route event(s) of a well-formed UPDATE lost", stage, r.len()),
@@ -626,13 +679,23 @@ fn witness_bmp_eor() -> (bool, Vec<u8>) {
     (true, enc_pdu(&[], &[a(0x40, 1, &[0]), a(0x40, 2, &[]), a(0x40, 3, &[10, 0, 0, 1]), a(0x80, 15, &[0, 1, 1])], &[P { len: 24, addr: vec![203, 0, 113] }]))
 }
 
+/// The witness of `C04_mrt_counterexample`: a 2-octet-AS session's UPDATE (AS_PATH 64500 64501
+/// in 2-byte encoding) in a BGP4MP_MESSAGE record.
+fn witness_mrt_as2() -> (bool, Vec<u8>) {
+    let a = |flags: u8, code: u8, value: &[u8]| A { flags, code, value: value.to_vec() };
+    (false, enc_pdu(&[], &[a(0x40, 1, &[0]), a(0x40, 2, &[2, 2, 0xfb, 0xf4, 0xfb, 0xf5]), a(0x40, 3, &[10, 0, 0, 1])], &[P { len: 24, addr: vec![203, 0, 113] }]))
+}
+
 fn main() {
     std::panic::set_hook(Box::new(|_| {}));
     let args = parse_args();
     let t0 = Instant::now();
     let mut rec = Recorder::new("wf: structured well-formed UPDATE PDUs (conventional withdrawn/NLRI, MP_REACH/MP_UNREACH for v4/v6 unicast/multicast and AFI/SAFIs unknown to routecore, 2/4-octet AS, prefix lengths 0..32/128, shuffled attributes with arbitrary flags and extended length), fed as bytes to the real UpdateMessage::from_octets + explode_announcements/withdrawals; mal: one mutation of such a PDU (ok/err class only). non-trivial = a wf case whose reference decoding has at least one route event, or a mal case the real decoder rejects; distinct = distinct case lines");
 
-    let mut cx = Ctx { bgp: BgpUpdateProcessor::new() };
+    let dir = std::env::temp_dir().join(format!("verif-{}-c04", std::process::id()));
+    std::fs::create_dir_all(&dir).unwrap();
+    let rt = tokio::runtime::Builder::new_multi_thread().worker_threads(2).enable_all().build().unwrap();
+    let mut cx = Ctx { bgp: BgpUpdateProcessor::new(), rt, dir: dir.clone() };
 
     if let Some(path) = &args.replay {
         for line in verif_harness::replay_cases(path) {
@@ -652,8 +715,11 @@ fn main() {
     let (as4, w) = witness_bmp_eor();
     let r = wf_case(&mut rec, &mut cx, Path::BmpDumping, as4, &w, None);
     rec.variant("bmpeor", if matches!(&r, Ok(es) if es.is_empty()) { "as-written" } else { "repaired" });
+    let (as4, w) = witness_mrt_as2();
+    let r = wf_case(&mut rec, &mut cx, Path::Mrt, as4, &w, None);
+    rec.variant("mrtas", if matches!(&r, Ok(es) if es.iter().all(|e| e.as4)) { "as-written" } else { "repaired" });
     for (as4, pdu) in corpus() {
-        for path in [Path::Direct, Path::Bgp, Path::BmpDumping, Path::BmpUpdating] { let _ = wf_case(&mut rec, &mut cx, path, as4, &pdu, None); rec.bump("corpus"); }
+        for path in [Path::Direct, Path::Bgp, Path::BmpDumping, Path::BmpUpdating, Path::Mrt] { let _ = wf_case(&mut rec, &mut cx, path, as4, &pdu, None); rec.bump("corpus"); }
     }
 
     let mut g = Gen { rng: Rng::new(args.seed) };
@@ -681,6 +747,7 @@ fn main() {
         }
     }
 
+    let mut mrt_batch: Vec<Built> = vec![];
     // 2. random structured PDUs + one mutation of every fourth
     let n = if args.thorough { 200_000 } else { 12_000 };
     for i in 0..n {
@@ -693,12 +760,28 @@ fn main() {
             rec.bump(&format!("path.{}", path.tag()));
             let _ = wf_case(&mut rec, &mut cx, path, b.as4, &b.pdu, Some(&b.truth));
         }
-        let _ = b.dirty;
+        if i % 4 == 3 { mrt_batch.push(Built { as4: b.as4, pdu: b.pdu.clone(), truth: b.truth.clone(), dirty: b.dirty, tags: vec![] }); }
         if i % 4 == 0 && !b.dirty {
             let (m, kind) = g.damage(&b.pdu);
             rec.bump(&format!("mal.{kind}"));
             mal_case(&mut rec, b.as4, &m);
         }
     }
+
+    // 3. MRT path: the PDUs the direct path accepts go into ONE update file (one Update per
+    //    record, in order); the others are run one file each (process_file gives up on them).
+    let (good, bad): (Vec<Built>, Vec<Built>) = mrt_batch.into_iter().partition(|b| real(true, &b.pdu).is_ok());
+    let recs: Vec<(bool, Vec<u8>)> = good.iter().map(|b| (b.as4, b.pdu.clone())).collect();
+    let (ups, failed) = real_mrt_file(&cx.rt, &cx.dir, &recs);
+    for (k, b) in good.iter().enumerate() {
+        let got = if failed || ups.len() != good.len() { Err("mrt-batch-misaligned") } else { update_evs(&ups[k]) };
+        rec.bump("path.mrt");
+        let _ = finish_wf_case(&mut rec, Path::Mrt, b.as4, &b.pdu, Some(&b.truth), got);
+    }
+    for b in bad.iter().take(if args.thorough { 400 } else { 40 }) {
+        rec.bump("path.mrt");
+        let _ = wf_case(&mut rec, &mut cx, Path::Mrt, b.as4, &b.pdu, Some(&b.truth));
+    }
+    let _ = std::fs::remove_dir_all(&dir);
     rec.finish(&args, t0.elapsed().as_secs_f64());
 }
